@@ -14,7 +14,7 @@ from .. import core
 from .. import coqrun as cq
 from .. import gen
 
-TECHNIQUE = ('Coq proofs about bounds-checked twins of the kernel models (unbounded for the CSR relaxation sweeps, aggregation, BFS and '
+TECHNIQUE = ('Coq proofs about bounds-checked twins of the kernel models (unbounded for the CSR relaxation sweeps, aggregation, BFS, serial MIS and '
              'the Ruge-Stuben buckets) + sanitizer-instrumented execution of all 66 kernels as correspondence / failing-input search')
 LEVEL_TEXT = ('Kernel-checked theorems (Props/C17.v) about CHECKED twins of the kernel models, in which every array access goes '
               'through a bounds-checked get/set and the result is None at the first access outside an array: for EVERY '
@@ -22,7 +22,7 @@ LEVEL_TEXT = ('Kernel-checked theorems (Props/C17.v) about CHECKED twins of the 
               'and every list of rows inside [0,n) -- in particular the forward and backward sweep ranges the callers pass -- '
               'the checked gauss_seidel, sor_gauss_seidel and jacobi never leave their arrays and return exactly what the '
               'bit-exact kernel models of C09 return; naive and standard aggregation (the -n sentinel arithmetic, ids shifted in place, y written at next-1 / next) '
-              'likewise for every structurally valid CSR graph of any size, symmetric or not; breadth_first_search likewise (order[N] is written '
+              'likewise for every structurally valid CSR graph of any size, symmetric or not; maximal_independent_set_serial likewise (any marker values, any starting state of x); breadth_first_search likewise (order[N] is written '
               'only while fewer than n vertices are labelled, any seed in range); for the Ruge-Stuben first pass (lambda buckets sized '
               'max(2*lambda_max, n+1), the "//invalid write!" site) the same holds for every pair of valid CSR patterns S, T '
               '(any size, not necessarily transposes of each other) and every nonnegative influence vector, by the bucket '
@@ -36,7 +36,7 @@ LEVEL_TEXT = ('Kernel-checked theorems (Props/C17.v) about CHECKED twins of the 
               'headers under AddressSanitizer + UndefinedBehaviorSanitizer + LeakSanitizer, through the Python callers (so '
               'every buffer is sized as they size it), over the complete enumeration of small graphs and structured random '
               'CSR/BSR inputs, each run under a time limit.')
-LEVEL_NOTE = ('Proof covers 7 of 66 kernels (gauss_seidel, sor_gauss_seidel, jacobi, naive_aggregation, standard_aggregation, breadth_first_search, rs_cf_splitting; all unbounded; plus the slot-count theorem for rs_direct / rs_classical interpolation pass 1/2 at the level of the C11 row models).  For the other 59 the sanitizer run is an oracle, not a '
+LEVEL_NOTE = ('Proof covers 8 of 66 kernels (gauss_seidel, sor_gauss_seidel, jacobi, naive_aggregation, standard_aggregation, breadth_first_search, maximal_independent_set_serial, rs_cf_splitting; all unbounded; plus the slot-count theorem for rs_direct / rs_classical interpolation pass 1/2 at the level of the C11 row models).  For the other 58 the sanitizer run is an oracle, not a '
               'proof; it is the search that produces failing inputs.  Memory safety of the C++ text itself is never proved: '
               'the theorems are about Gallina twins tied to the code by correspondence.  Lloyd clustering is exercised with '
               'positive weights only (its documented domain): zero-weight edges lead to duplicate centres and a heap '
@@ -468,6 +468,65 @@ def twin_bfs(ctx, asan_dir):
     ctx.corr_relations.append('checked breadth_first_search twin == working-tree kernel on every small graph and seed; None <=> sanitizer report')
 
 
+def twin_mis(ctx, asan_dir):
+    """maximal_independent_set_serial: checked twin == kernel on every small graph (several marker triples and starting
+    states); None exactly where ASan stops it"""
+    from pyamg import amg_core
+    cases, tags = [], []
+    graphs = []
+    for n in range(1, (5 if ctx.thorough else 4) + 1):
+        for edges in gen.all_sym_graphs(n):
+            graphs.append((n, list(edges) + [(j, i) for i, j in edges]))
+    for n in (2, 3):
+        for arcs in gen.all_directed_patterns(n):
+            graphs.append((n, list(arcs)))
+    rng = ctx.sub('twinmis')
+    for gi, (n, arcs) in enumerate(graphs):
+        G = gen.digraph_csr(n, arcs)
+        Ap, Aj = G.indptr.astype(I32), G.indices.astype(I32)
+        for (act, C_, F_) in ((-1, 1, 0), (5, 7, 9)):
+            x0 = np.array([act if rng.random() < 0.8 else rng.choice([C_, F_, 3]) for _ in range(n)], dtype=I32)
+            x = x0.copy()
+            N_ = amg_core.maximal_independent_set_serial(n, Ap, Aj, act, C_, F_, x)
+            cases.append('(%s, %s, %s, Some %s)' % (cq.z(n), cq.lst([cq.zl(Ap), cq.zl(Aj), cq.zl(x0)]), cq.zl([act, C_, F_]),
+                                                   cq.zl([int(N_)] + x.tolist())))
+            tags.append(('valid', gi, act))
+            ctx.case(('mis-twin', gi, act, x0.tobytes()), nontrivial=len(arcs) > 0)
+    Ap = np.array([0, 1, 3, 4], dtype=I32)          # path 0 - 1 - 2
+    Aj = np.array([1, 0, 2, 1], dtype=I32)
+    mal = []
+    Aj1 = Aj.copy()
+    Aj1[0] = 3
+    mal.append(('mis/column-index-n', Ap, Aj1, 3, 3))
+    Ap1 = Ap.copy()
+    Ap1[3] = 6
+    mal.append(('mis/row-pointer-past-nnz', Ap1, Aj, 3, 3))
+    mal.append(('mis/x-too-short', Ap, Aj, 3, 2))
+    mal.append(('mis/valid-control', Ap, Aj, 3, 3))
+    for tag, ap, aj, nn, xlen in mal:
+        x0 = np.full(xlen, -1, dtype=I32)
+        rep, rc, out = run_one_under_asan(asan_dir, dict(kernel='maximal_independent_set_serial', args=(nn, ap, aj, -1, 1, 0, x0.copy()),
+                                                         case='malformed/' + tag), 'mal_' + tag.replace('/', '_'))
+        ctx.case(('malformed', tag))
+        ctx.count('twin/malformed/' + ('sanitizer-report' if rep else 'clean'))
+        if rep:
+            exp = 'None'
+        else:
+            x = x0.copy()
+            N_ = amg_core.maximal_independent_set_serial(nn, ap, aj, -1, 1, 0, x)
+            exp = 'Some %s' % cq.zl([int(N_)] + x.tolist())
+        cases.append('(%s, %s, %s, %s)' % (cq.z(nn), cq.lst([cq.zl(ap), cq.zl(aj), cq.zl(x0)]), cq.zl([-1, 1, 0]), exp))
+        tags.append((tag, rep[0] if rep else None))
+    bad, errs = cq.run_cases('c17_mis', HEADER, '(Z * list (list Z) * list Z * option (list Z))%type', 'mis_chk_case', cases, shard=800)
+    for e in errs:
+        ctx.disagree('C17 MIS twin evaluation', None, e, None)
+    for i in bad:
+        ctx.disagree('checked maximal_independent_set_serial twin == kernel (valid graphs) / None <=> sanitizer report (malformed)',
+                     dict(case=str(tags[i])), 'twin', cases[i][:400])
+    ctx.count('twin/mis_cases', len(cases))
+    ctx.corr_relations.append('checked maximal_independent_set_serial twin == working-tree kernel on every small graph; None <=> sanitizer report')
+
+
 def run(ctx):
     try:
         asan_dir = core.native_build(asan=True)
@@ -479,6 +538,7 @@ def run(ctx):
     twin_agg(ctx)
     twin_malformed(ctx, asan_dir)
     twin_bfs(ctx, asan_dir)
+    twin_mis(ctx, asan_dir)
     san_corpus(ctx, asan_dir)
     shutil.rmtree(os.path.join(core.VERIF, 'build', 'run', 'c17_single' + core.TAG + '_' + core.RUNID), ignore_errors=True)
 
